@@ -53,6 +53,7 @@ func WorkerMain(args []string) int {
 	c.Race = p.Race
 	c.SkipTo = *skipTo
 	c.Only = *only
+	c.ResultPath = *result
 	if *logp != "" {
 		if err := c.OpenLog(*logp); err != nil {
 			fmt.Fprintln(os.Stderr, err)
